@@ -160,14 +160,19 @@ class AbstractInventory(ABC):
         nuclide name strings. Converts nuclide name strings and ids into Ab-XY format.
         """
 
-        return {
-            (
+        parsed: Dict[str, Union[float, Expr]] = {}
+        for nuc, inp in contents.items():
+            key = (
                 parse_nuclide(nuc.nuclide, nuclides, dataset_name)
                 if isinstance(nuc, Nuclide)
                 else parse_nuclide(nuc, nuclides, dataset_name)
-            ): inp
-            for nuc, inp in contents.items()
-        }
+            )
+            if key in parsed:
+                raise ValueError(
+                    f"{key} is specified more than once in the inventory contents."
+                )
+            parsed[key] = inp
+        return parsed
 
     @staticmethod
     def _check_values(contents: Dict[str, Union[float, Expr]]) -> None:
